@@ -418,8 +418,8 @@ class C01(PropertyCheck):
             "parametric (float-angle) circuits are compared with the dense product only and tagged oracle-only")
 
     # --------------------------------------------------------------------------------------------
-    def _impl_paths(self, N, gates, ugs, ket, rho, oper):
-        """every evaluation path of the real code on one circuit -> dict name -> (status, array/list)"""
+    def _impl_paths(self, N, gates, ugs, ket, rho, oper, paths=None):
+        """every (requested) evaluation path of the real code on one circuit -> dict name -> (status, array/list)"""
         import qutip
         from qutip_qip.circuit import CircuitSimulator
         from qutip_qip.operations import gate_sequence_product
@@ -431,6 +431,7 @@ class C01(PropertyCheck):
         st, qc = guarded(lambda: build_circuit(N, gates, ugs))
         if st != "ok":
             return {"build": (st, None)}, None
+        want = lambda name: paths is None or name in paths
         with EinsumSpy() as spy:
             out["ket"] = guarded(lambda: qc.run(qket).full().ravel())
         out["einsum_lists"] = ("ok", spy.calls)
@@ -443,51 +444,68 @@ class C01(PropertyCheck):
                 sim.step()
                 res.append(sim.state.full().copy())
             return res
-        out["ket_steps"] = guarded(lambda: [s.ravel() for s in steps("state_vector_simulator", qket)])
-        out["oper"] = guarded(lambda: CircuitSimulator(qc, mode="state_vector_simulator").run(qop).get_final_states(0).full())
-        out["oper_steps"] = guarded(lambda: steps("state_vector_simulator", qop))
-        out["dm"] = guarded(lambda: qc.run(qrho).full())
-        out["dm_steps"] = guarded(lambda: steps("density_matrix_simulator", qrho))
-        out["dmket"] = guarded(lambda: CircuitSimulator(qc, mode="density_matrix_simulator").run(qket).get_final_states(0).full())
-        out["unitary"] = guarded(lambda: qc.compute_unitary().full())
-        out["props1"] = guarded(lambda: [p.full() for p in qc.propagators(expand=True)])
-        out["props0"] = guarded(lambda: [p.full() for p in qc.propagators(expand=False)])
+        if want("ket_steps"):
+            out["ket_steps"] = guarded(lambda: [s.ravel() for s in steps("state_vector_simulator", qket)])
+        if want("oper"):
+            out["oper"] = guarded(lambda: CircuitSimulator(qc, mode="state_vector_simulator").run(qop).get_final_states(0).full())
+        if want("oper_steps"):
+            out["oper_steps"] = guarded(lambda: steps("state_vector_simulator", qop))
+        if want("dm"):
+            out["dm"] = guarded(lambda: qc.run(qrho).full())
+        if want("dm_steps"):
+            out["dm_steps"] = guarded(lambda: steps("density_matrix_simulator", qrho))
+        if want("dmket"):
+            out["dmket"] = guarded(lambda: CircuitSimulator(qc, mode="density_matrix_simulator").run(qket).get_final_states(0).full())
+        if want("unitary"):
+            out["unitary"] = guarded(lambda: qc.compute_unitary().full())
+        if want("props1"):
+            out["props1"] = guarded(lambda: [p.full() for p in qc.propagators(expand=True)])
+        if want("props0"):
+            out["props0"] = guarded(lambda: [p.full() for p in qc.propagators(expand=False)])
 
         def prod(ltr):
             r = gate_sequence_product(qc.propagators(expand=True), left_to_right=ltr)
             return "int1" if isinstance(r, int) else r.full()
-        out["prod_ltr"] = guarded(lambda: prod(True))
-        out["prod_rtl"] = guarded(lambda: prod(False))
+        if want("prod_ltr"):
+            out["prod_ltr"] = guarded(lambda: prod(True))
+        if want("prod_rtl"):
+            out["prod_rtl"] = guarded(lambda: prod(False))
 
         def compact():
             Us = qc.propagators(expand=False)
             inds = [g.get_all_qubits() if g.name != "GLOBALPHASE" else list(range(N)) for g in qc.gates]
             U, oi = gate_sequence_product(Us, inds_list=inds, expand=True)
             return [list(oi), U.full()]
-        out["compact"] = guarded(compact)
+        if want("compact"):
+            out["compact"] = guarded(compact)
         return out, qc
 
-    def _model_paths(self, ctx, N, gates, ugs, ket, rho, oper):
+    @staticmethod
+    def _model_lines(N, gates, ugs, ket, rho, oper, paths=None):
         base = f"N={N} ug={enc_ug(ugs)} ops={enc_ops(gates)}"
-        lines = [
-            f"ket {base} state={enc_vec(ket)} trace=0",
-            f"ket {base} state={enc_vec(ket)} trace=1",
-            f"oper {base} state={enc_mat(oper)} trace=0",
-            f"oper {base} state={enc_mat(oper)} trace=1",
-            f"dm {base} state={enc_mat(rho)} trace=0",
-            f"dm {base} state={enc_mat(rho)} trace=1",
-            f"dmket {base} state={enc_vec(ket)}",
-            f"unitary {base}",
-            f"props {base} expand=1",
-            f"props {base} expand=0",
-            f"prod {base} ltr=1",
-            f"prod {base} ltr=0",
-            f"compact {base} ord=sorted",
+        allp = [
+            ("ket", f"ket {base} state={enc_vec(ket)} trace=0"),
+            ("ket_steps", f"ket {base} state={enc_vec(ket)} trace=1"),
+            ("oper", f"oper {base} state={enc_mat(oper)} trace=0"),
+            ("oper_steps", f"oper {base} state={enc_mat(oper)} trace=1"),
+            ("dm", f"dm {base} state={enc_mat(rho)} trace=0"),
+            ("dm_steps", f"dm {base} state={enc_mat(rho)} trace=1"),
+            ("dmket", f"dmket {base} state={enc_vec(ket)}"),
+            ("unitary", f"unitary {base}"),
+            ("props1", f"props {base} expand=1"),
+            ("props0", f"props {base} expand=0"),
+            ("prod_ltr", f"prod {base} ltr=1"),
+            ("prod_rtl", f"prod {base} ltr=0"),
+            ("compact", f"compact {base} ord=sorted"),
         ]
-        names = ["ket", "ket_steps", "oper", "oper_steps", "dm", "dm_steps", "dmket", "unitary", "props1", "props0",
-                 "prod_ltr", "prod_rtl", "compact"]
-        outs = ctx.driver("drv_ket").run(lines)
-        return dict(zip(names, outs))
+        sel = [(n, l) for n, l in allp if paths is None or n in paths]
+        sel += [("lists", f"lists n={N} targets={','.join(map(str, g.qubits()))}") for g in gates if g.name != "GLOBALPHASE"]
+        return sel
+
+    def _model_paths(self, ctx, N, gates, ugs, ket, rho, oper):
+        sel = self._model_lines(N, gates, ugs, ket, rho, oper)
+        outs = ctx.driver("drv_ket").run([l for _, l in sel])
+        return {n: o for (n, _), o in zip(sel, outs) if n != "lists"}
 
     @staticmethod
     def _decode(name, ans):
@@ -521,25 +539,41 @@ class C01(PropertyCheck):
         return close(iv, mv)
 
     def _exact_case(self, ctx, res, N, gates, ugs, tags, inp_extra=None, paths=None):
-        """one circuit, all paths, exact comparison with the model + the oracle on the same run"""
-        rng = ctx.rng
-        D = 2 ** N
-        ket = random_state(rng, D, dense=rng.random() < 0.3)
-        rho = [[rand_scalar(rng) for _ in range(D)] for _ in range(D)]
-        oper = [[rand_scalar(rng) for _ in range(D)] for _ in range(D)]
+        self._exact_batch(ctx, res, [(N, gates, ugs, tags, paths)])
+
+    def _exact_batch(self, ctx, res, cases, oracle_every=1, chunk=40):
+        """circuits (N, gates, ugs, tags, paths): all requested paths, exact comparison with the model (one driver run
+        per chunk) + the oracle on the same circuits"""
+        for c0 in range(0, len(cases), chunk):
+            preps, lines = [], []
+            for (N, gates, ugs, tags, paths) in cases[c0:c0 + chunk]:
+                rng = ctx.rng
+                D = 2 ** N
+                ket = random_state(rng, D, dense=rng.random() < 0.3)
+                rho = [[rand_scalar(rng) for _ in range(D)] for _ in range(D)]
+                oper = [[rand_scalar(rng) for _ in range(D)] for _ in range(D)]
+                sel = self._model_lines(N, gates, ugs, ket, rho, oper, paths)
+                preps.append((N, gates, ugs, tags, paths, ket, rho, oper, [n for n, _ in sel], len(lines)))
+                lines += [l for _, l in sel]
+            outs = ctx.driver("drv_ket").run(lines)
+            for k, (N, gates, ugs, tags, paths, ket, rho, oper, names, off) in enumerate(preps):
+                answers = outs[off:off + len(names)]
+                self._compare_case(ctx, res, N, gates, ugs, tags, paths, ket, rho, oper, names, answers,
+                                   with_oracle=((c0 + k) % oracle_every == 0))
+
+    def _compare_case(self, ctx, res, N, gates, ugs, tags, paths, ket, rho, oper, names, answers, with_oracle=True):
         inp = {"N": N, "gates": [g.js() for g in gates], "ug": [[u.name, u.kind, u.m] for u in ugs], "ket": enc_vec(ket)[:80]}
-        if inp_extra:
-            inp.update(inp_extra)
         witness = {"kind": "circuit", "N": N, "gates": [g.js() for g in gates], "ug": [u.js() for u in ugs]}
         nontrivial = len(gates) >= 2 or any(g.qubits() != list(range(len(g.qubits()))) for g in gates)
-        impl, qc = self._impl_paths(N, gates, ugs, ket, rho, oper)
-        model = self._model_paths(ctx, N, gates, ugs, ket, rho, oper)
+        impl, qc = self._impl_paths(N, gates, ugs, ket, rho, oper, paths)
         if "build" in impl:
             res.case(inp, nontrivial, tags + ["build-error"])
             res.disagree(inp, "circuit", impl["build"][0], "circuit construction failed", witness)
             return
-        for name, ans in model.items():
-            if paths is not None and name not in paths:
+        list_answers = []
+        for name, ans in zip(names, answers):
+            if name == "lists":
+                list_answers.append(ans)
                 continue
             ms, mv = self._decode(name, ans)
             ist, iv = impl[name]
@@ -549,22 +583,20 @@ class C01(PropertyCheck):
                              f"path {name}: model and implementation differ", witness)
         # index lists handed to einsum (ket run): one call per non-phase gate
         calls = impl["einsum_lists"][1]
-        nonphase = [g for g in gates if g.name != "GLOBALPHASE"]
         if impl["ket"][0] == "ok":
-            lines = [f"lists n={N} targets={','.join(map(str, g.qubits()))}" for g in nonphase]
-            outs = ctx.driver("drv_ket").run(lines) if lines else []
             got = [[c[0], c[1], c[2]] for c in calls]
             exp = []
-            for o in outs:
+            for o in list_answers:
                 anc, tgt, idx, new = [[int(x) for x in p.split(",") if x] for p in o[3:].split("|")]
                 exp.append([anc + tgt, idx, new])
             res.case(dict(inp, path="einsum_lists"), nontrivial, tags + ["path=einsum_lists"])
             if got != exp:
                 res.disagree(dict(inp, path="einsum_lists"), exp, got, "index lists handed to np.einsum", witness)
-        # the property itself on the same run (dense product)
-        fails, detail = self._oracle_circuit(N, gates, ugs, ctx.rng)
-        if fails:
-            res.disagree(dict(inp, path="oracle"), "dense product", detail, "an evaluation path leaves the dense product", witness)
+        # the property itself on the same circuit (dense product)
+        if with_oracle:
+            fails, detail = self._oracle_circuit(N, gates, ugs, ctx.rng)
+            if fails:
+                res.disagree(dict(inp, path="oracle"), "dense product", detail, "an evaluation path leaves the dense product", witness)
 
     def _float_case(self, ctx, res, N, gates, tags):
         inp = {"N": N, "gates": [g.js() for g in gates]}
@@ -707,11 +739,13 @@ class C01(PropertyCheck):
         t0 = time.time()
         # 1. exhaustive: every placed library gate on 3 qubits (and 1, 2 qubits)
         singles = placed_gates(3)
+        batch = []
         for N in (1, 2):
             for g in placed_gates(N, rot_angles=False):
-                self._exact_case(ctx, res, N, [g], [], ["single", f"N={N}"])
+                batch.append((N, [g], [], ["single", f"N={N}"], None))
         for g in singles:
-            self._exact_case(ctx, res, 3, [g], [], ["single", "N=3"])
+            batch.append((3, [g], [], ["single", "N=3"], None))
+        self._exact_batch(ctx, res, batch)
         res.notes.append(f"exhaustive: every placed exact library gate on 1, 2 and 3 qubits ({len(singles)} on 3 qubits), all paths")
         ctx.log(f"  singles done at {time.time() - t0:.1f}s")
         # 2. every ordered pair of placed gates on 3 qubits (thorough), sampled (quick)
@@ -722,14 +756,14 @@ class C01(PropertyCheck):
             res.notes.append(f"exhaustive: every ordered pair of placed exact library gates on 3 qubits ({len(pairs)} pairs), "
                              "paths ket/steps/dm/unitary/product/compact")
         else:
-            pairs = [(rng.choice(light), rng.choice(light)) for _ in range(160)]
-            res.notes.append("ordered pairs of placed gates on 3 qubits: 160 sampled (exhaustive in the thorough tier)")
-        for a, b in pairs:
-            self._exact_case(ctx, res, 3, [a, b], [], ["pair", "N=3"], paths=pair_paths)
+            pairs = [(rng.choice(light), rng.choice(light)) for _ in range(400)]
+            res.notes.append("ordered pairs of placed gates on 3 qubits: 400 sampled (exhaustive in the thorough tier)")
+        self._exact_batch(ctx, res, [(3, [a, b], [], ["pair", "N=3"], pair_paths) for a, b in pairs],
+                          oracle_every=(8 if ctx.thorough else 1))
         res.exhaustive = True
         ctx.log(f"  pairs done at {time.time() - t0:.1f}s")
         # 3. seeded random exact circuits up to 6 qubits, with user gates
-        n_rand = 400 if ctx.thorough else 70
+        n_rand = 400 if ctx.thorough else 110
         for i in range(n_rand):
             N = rng.choice([1, 2, 2, 3, 3, 4, 4, 5]) if i % 10 else 6
             L = rng.randint(0, 8) if N < 6 else rng.randint(1, 4)
